@@ -65,7 +65,23 @@ type c10Rule struct {
 	prio        int
 	fails, kids bool
 	mode        int // how a sink fails: 1 raise, 2 runtime error (unknown function), 3 top-level return
-	frac        int // sinks: digit after the decimal point of the priority (the interpreter floors)
+	frac        int // sinks: tenths above the floor value prio (the interpreter floors): the number is prio + frac/10
+	huge        int // sinks: +1 / -1: a number far outside the int range (declaration must be rejected)
+}
+
+// c10PrioText: the ECAL number literal for prio + frac/10 (also below 0: -2 + 5/10 = -1.5)
+func (r c10Rule) prioText() string {
+	switch {
+	case r.huge > 0:
+		return "10000000000000000000"
+	case r.huge < 0:
+		return "-10000000000000000000"
+	case r.frac == 0:
+		return strconv.Itoa(r.prio)
+	case r.prio >= 0:
+		return fmt.Sprintf("%d.%d", r.prio, r.frac)
+	}
+	return fmt.Sprintf("-%d.%d", -r.prio-1, 10-r.frac)
 }
 
 // c10Lifecycle replays a history of life-cycle calls (letters: see parseHistory in the Lean
@@ -192,6 +208,130 @@ func c10Join(xs []string, sep string) string {
 	return strings.Join(xs, sep)
 }
 
+// ---------------------------------------------------------------- P: the part of ProcessEvent before the sort
+
+type c10PRule struct {
+	c10Rule
+	scope string // "-" or a scope path the rule requires
+	supp  []int  // rules suppressed by this rule
+	dbl   bool   // two kind patterns match the event (the rule must still run once)
+}
+
+// c10RunPre: rules with ScopeMatch / SuppressionList / two matching kind patterns on a root monitor
+// that allows the scopes in `allowed` — de-duplication, scope filter and suppression happen in
+// ProcessEvent before the sort; observed is the order of what is left.
+func c10RunPre(flag bool, allowed string, specs []c10PRule) string {
+	proc := engine.NewProcessor(1)
+	proc.SetFailOnFirstErrorInTriggerSequence(flag)
+	var mu sync.Mutex
+	var started []string
+	kids := 0
+	for i := range specs {
+		sp := specs[i]
+		km := []string{"e.x"}
+		if sp.dbl {
+			km = []string{"e.x", "e.*"}
+		}
+		sm := []string{}
+		if sp.scope != "-" {
+			sm = []string{sp.scope}
+		}
+		var sl []string
+		for _, j := range sp.supp {
+			sl = append(sl, fmt.Sprintf("r%d", j))
+		}
+		check(proc.AddRule(&engine.Rule{
+			Name: fmt.Sprintf("r%d", i), KindMatch: km, ScopeMatch: sm, Priority: sp.prio, SuppressionList: sl,
+			Action: func(p engine.Processor, m engine.Monitor, e *engine.Event, tid uint64) error {
+				mu.Lock()
+				started = append(started, strconv.Itoa(sp.prio))
+				mu.Unlock()
+				if sp.kids {
+					if _, err := p.AddEvent(engine.NewEvent("kid", []string{"c"}, nil), m.NewChildMonitor(sp.prio)); err != nil {
+						panic(err)
+					}
+				}
+				if sp.fails {
+					return errors.New("scripted failure")
+				}
+				return nil
+			}}))
+	}
+	check(proc.AddRule(&engine.Rule{
+		Name: "kid", KindMatch: []string{"c"}, ScopeMatch: []string{},
+		Action: func(p engine.Processor, m engine.Monitor, e *engine.Event, tid uint64) error {
+			mu.Lock()
+			kids++
+			mu.Unlock()
+			return nil
+		}}))
+	proc.Start()
+	sc := map[string]bool{}
+	for _, c := range allowed {
+		if c != '-' {
+			sc[string(c)] = true
+		}
+	}
+	rm := proc.NewRootMonitor(nil, engine.NewRuleScope(sc))
+	if _, err := proc.AddEventAndWait(engine.NewEvent("ev", []string{"e", "x"}, nil), rm); err != nil {
+		return "ERR " + oneLine(err.Error())
+	}
+	proc.Finish()
+	var errPrios []int
+	for _, te := range rm.AllErrors() {
+		for name := range te.ErrorMap {
+			i, _ := strconv.Atoi(strings.TrimPrefix(name, "r"))
+			errPrios = append(errPrios, specs[i].prio)
+		}
+	}
+	sort.Ints(errPrios)
+	es := make([]string, len(errPrios))
+	for i, p := range errPrios {
+		es[i] = strconv.Itoa(p)
+	}
+	return "exec=" + c10Join(started, ".") + " err=" + c10Join(es, ".") + " kids=" + strconv.Itoa(kids)
+}
+
+func c10RandomPre(g *Gen) string {
+	n := 2 + g.R.Intn(7)
+	perm := make([]int, n)
+	for i := range perm {
+		perm[i] = i
+	}
+	for i := n - 1; i > 0; i-- {
+		j := g.R.Intn(i + 1)
+		perm[i], perm[j] = perm[j], perm[i]
+	}
+	allowed := []string{"a", "b", "ab", "-"}[g.R.Intn(4)]
+	var rs []string
+	for i := 0; i < n; i++ {
+		scope := "-"
+		if g.R.Intn(3) == 0 {
+			scope = []string{"a", "b"}[g.R.Intn(2)]
+		}
+		supp := "-"
+		if g.R.Intn(3) == 0 {
+			var xs []string
+			for k := 1 + g.R.Intn(2); k > 0; k-- {
+				if j := g.R.Intn(n); j != i {
+					xs = append(xs, strconv.Itoa(j))
+				}
+			}
+			if len(xs) > 0 {
+				supp = strings.Join(xs, "+")
+			}
+		}
+		b := func(x bool) string {
+			if x {
+				return "1"
+			}
+			return "0"
+		}
+		rs = append(rs, fmt.Sprintf("%d:%s:%s:%s:%s:%s", perm[i], b(g.R.Intn(5) == 0), b(g.R.Intn(3) == 0), scope, supp, b(g.R.Intn(3) == 0)))
+	}
+	return fmt.Sprintf("P %d %s %s", g.R.Intn(2), allowed, strings.Join(rs, " "))
+}
+
 // ---------------------------------------------------------------- S: the same through ECAL sinks
 
 var (
@@ -203,14 +343,14 @@ var (
 // c10RunSinks declares one sink per rule (`priority N`, `raise` for a failing one, `addEvent` for a
 // child event) and adds the event from ECAL code; the interpreter's processor has fail-on-first-error
 // set by default (interpreter/provider.go).
-func c10RunSinks(hist string, specs []c10Rule) string {
+func c10RunSinks(hist string, specs []c10Rule, names bool) string {
 	var src strings.Builder
 	for i, sp := range specs {
-		prio := strconv.Itoa(sp.prio)
-		if sp.frac > 0 && sp.prio >= 0 {
-			prio += "." + strconv.Itoa(sp.frac)
+		logged := sp.prio
+		if names {
+			logged = i
 		}
-		fmt.Fprintf(&src, "sink s%d\n  kindmatch [\"e\"],\n  priority %s\n{\n  x.c10log(%d)\n", i, prio, sp.prio)
+		fmt.Fprintf(&src, "sink s%d\n  kindmatch [\"e\"],\n  priority %s\n{\n  x.c10log(%d)\n", i, sp.prioText(), logged)
 		if sp.kids {
 			src.WriteString("  addEvent(\"kid\", \"c\", {})\n")
 		}
@@ -252,6 +392,9 @@ func c10RunSinks(hist string, specs []c10Rule) string {
 		}
 	})
 	if loadErr != nil {
+		if strings.Contains(loadErr.Error(), "out of range") {
+			return "ERR-priority-range"
+		}
 		return "ERR " + oneLine(loadErr.Error())
 	}
 	res, err := eval("addEventAndWait(\"ev\", \"e\", {})\n")
@@ -266,7 +409,11 @@ func c10RunSinks(hist string, specs []c10Rule) string {
 				if em, ok := m["errors"].(map[interface{}]interface{}); ok {
 					for name := range em {
 						i, _ := strconv.Atoi(strings.TrimPrefix(fmt.Sprint(name), "s"))
-						errPrios = append(errPrios, specs[i].prio)
+						if names {
+							errPrios = append(errPrios, i)
+						} else {
+							errPrios = append(errPrios, specs[i].prio)
+						}
 					}
 				}
 			}
@@ -403,16 +550,7 @@ func c10RunBook(ops []string) string {
 		}
 		out = append(out, strconv.Itoa(rm.HighestPriority()))
 	}
-	// which monitors count as activated in the end (Skip marks a monitor activated as well)
-	act := ""
-	for _, m := range mons {
-		if m.IsActivated() {
-			act += "1"
-		} else {
-			act += "0"
-		}
-	}
-	return c10Join(out, ",") + " act=" + act
+	return c10Join(out, ",")
 }
 
 // ---------------------------------------------------------------- K: cascades
@@ -678,7 +816,14 @@ func c10RulePayload(flag bool, rs []c10Rule) string {
 		if r.fails && r.mode > 1 {
 			f = strconv.Itoa(r.mode)
 		}
-		fmt.Fprintf(&sb, " %d:%s:%s", r.prio, f, b(r.kids))
+		switch {
+		case r.huge > 0:
+			fmt.Fprintf(&sb, " H:%s:%s", f, b(r.kids))
+		case r.huge < 0:
+			fmt.Fprintf(&sb, " G:%s:%s", f, b(r.kids))
+		default:
+			fmt.Fprintf(&sb, " %d:%s:%s", r.prio, f, b(r.kids))
+		}
 		if r.frac > 0 {
 			fmt.Fprintf(&sb, ":%d", r.frac)
 		}
@@ -819,6 +964,25 @@ func c10StressBook(g *Gen) string {
 	return "B " + strings.Join(ops, " ")
 }
 
+// c10BigCascade: one root event whose rule adds 200..400 events with 16 priorities, some of which
+// add further events: many monitors finishing concurrently on 8 workers.
+func c10BigCascade(g *Gen) string {
+	n := 200 + g.R.Intn(200)
+	nodes := []string{"r:R:0/0"}
+	for i := 1; i <= n; i++ {
+		parent := "0.0"
+		if i > 20 && g.R.Intn(5) == 0 {
+			parent = fmt.Sprintf("%d.0", 1+g.R.Intn(i-1))
+		}
+		f := "0"
+		if g.R.Intn(25) == 0 {
+			f = "1"
+		}
+		nodes = append(nodes, fmt.Sprintf("%s:%d:0/%s", parent, g.R.Intn(16), f))
+	}
+	return fmt.Sprintf("K 8 %d %s", g.R.Intn(2), strings.Join(nodes, ","))
+}
+
 func c10RandomRoots(g *Gen, maxRoots, maxNodes int, negative bool) string {
 	nr := 1 + g.R.Intn(maxRoots)
 	var roots []string
@@ -838,6 +1002,15 @@ func c10RandomRoots(g *Gen, maxRoots, maxNodes int, negative bool) string {
 			prio := strconv.Itoa(g.R.Intn(6))
 			if negative && g.R.Intn(6) == 0 {
 				prio = strconv.Itoa(-1 - g.R.Intn(3))
+			}
+			// the whole range of priority numbers, not only the small ones
+			switch g.R.Intn(14) {
+			case 0, 1:
+				prio = strconv.Itoa(6 + g.R.Intn(35))
+			case 2:
+				prio = "1000"
+			case 3:
+				prio = "2147483647"
 			}
 			if i == 0 && g.R.Bool() {
 				prio = "R"
@@ -876,6 +1049,11 @@ func c10ParseRule(s string) c10Rule {
 	x := strings.Split(s, ":")
 	p, _ := strconv.Atoi(x[0])
 	r := c10Rule{prio: p, fails: x[1] != "0", kids: x[2] == "1", mode: 1}
+	if x[0] == "H" {
+		r.huge = 1
+	} else if x[0] == "G" {
+		r.huge = -1
+	}
 	if r.fails {
 		r.mode, _ = strconv.Atoi(x[1])
 	}
@@ -912,6 +1090,16 @@ func init() {
 			})
 		},
 		Gen: func(g *Gen) {
+			if g.Tier == "race" {
+				// cases for the harness built with -race (props/C10.py): cascades on several workers
+				for i := 0; i < 12; i++ {
+					g.Emit(c10BigCascade(g))
+				}
+				for i := 0; i < 150; i++ {
+					g.Emit(fmt.Sprintf("K %d %d %s", 2+g.R.Intn(7), g.R.Intn(2), c10RandomRoots(g, 3, 12, true)))
+				}
+				return
+			}
 			// corpus: the inputs of the repaired defects first
 			for _, c := range []string{
 				"B N5 A1 N9 A2 N3 A3 N11 A4 N8 A5 N4 A6 F6 N6 A7 N7 A8 F3",
@@ -924,6 +1112,9 @@ func init() {
 				"S 3:0:0 0:0:1 2:1:1 1:0:0 5:0:0 4:1:0",
 				"S 3:0:0 0:0:1 2:2:1 1:0:0:7",
 				"S 3:0:0 0:0:1 2:3:1 -1:0:0",
+				"S 0:0:0 -1:0:0:5 -2:0:0:5 -1:0:0",
+				"S 0:0:0 H:0:0 3:0:0",
+				"W 0:0:0:7 0:1:0:2 1:0:0",
 				"V 1 1:0:0 1:1:1 1:0:1 2:0:0",
 				"V 0 1:0:0 1:1:1 1:0:1 0:1:0",
 				"S Hl 3:0:0 0:0:1 2:1:1 1:0:0 5:0:0 4:1:0",
@@ -1061,7 +1252,39 @@ func init() {
 					}
 					g.Count("sinks: equal/negative/fractional priorities, raise / runtime error / return")
 					g.Emit("S" + strings.TrimPrefix(c10RulePayload(true, ss), "R 1"))
+					// fractional numbers (also below 0) with mixed outcomes inside a floored group: validated
+					ws := make([]c10Rule, 1+g.R.Intn(7))
+					for i := range ws {
+						ws[i] = c10Rule{prio: g.R.Intn(4) - 2, fails: g.R.Intn(4) == 0, kids: g.R.Intn(3) == 0, mode: 1 + g.R.Intn(3), frac: g.R.Intn(10)}
+					}
+					g.Count("sinks validated: fractional priorities incl. negative, mixed outcomes in a floored group")
+					g.Emit("W" + strings.TrimPrefix(c10RulePayload(true, ws), "R 1"))
+					// distinct floors, fractions everywhere (also below 0): predicted
+					perm := []int{-3, -2, -1, 0, 1, 2}
+					for x := len(perm) - 1; x > 0; x-- {
+						y := g.R.Intn(x + 1)
+						perm[x], perm[y] = perm[y], perm[x]
+					}
+					ds := make([]c10Rule, 2+g.R.Intn(5))
+					for i := range ds {
+						ds[i] = c10Rule{prio: perm[i], fails: g.R.Intn(5) == 0, kids: g.R.Intn(3) == 0, mode: 1, frac: g.R.Intn(10)}
+					}
+					if rep%10 == 0 {
+						// a number outside the int range: the declaration must be rejected
+						ds[g.R.Intn(len(ds))].huge = 1 - 2*g.R.Intn(2)
+					}
+					g.Count("sinks: distinct floors with fractions incl. negative; sometimes a number outside the int range")
+					g.Emit("S" + strings.TrimPrefix(c10RulePayload(true, ds), "R 1"))
 				}
+			}
+			// P: scope filter, suppression and double kind matches (before the sort), then the order
+			for _, c := range []string{"P 1 a 0:0:0:-:1:0 1:0:0:-:-:0 2:0:0:-:-:1 3:0:1:a:-:0 4:0:0:b:-:0", "P 0 - 2:1:0:-:-:1 0:0:0:a:-:0 1:0:1:-:0:1"} {
+				g.Count("corpus")
+				g.Emit(c)
+			}
+			for i := 0; i < 2*nRules; i++ {
+				g.Count("rules with scope / suppression / two matching kind patterns")
+				g.Emit(c10RandomPre(g))
 			}
 			// B: exhaustive, then random longer sequences over more priorities
 			c10BookDFS(g, depth)
@@ -1102,6 +1325,10 @@ func init() {
 				g.Count("cascade 1 worker")
 				g.Emit(fmt.Sprintf("K 1 %d %s", g.R.Intn(2), c10RandomRoots(g, 3, 10, true)))
 			}
+			for i := 0; i < nKn/80; i++ {
+				g.Count("cascade 8 workers, 200..400 events")
+				g.Emit(c10BigCascade(g))
+			}
 			for i := 0; i < nKn; i++ {
 				g.Count("cascade 2..8 workers")
 				g.Emit(fmt.Sprintf("K %d %d %s", 2+g.R.Intn(7), g.R.Intn(2), c10RandomRoots(g, 3, 12, true)))
@@ -1113,7 +1340,7 @@ func init() {
 			case "R":
 				var rs []c10Rule
 				hist, rest := "", f[2:]
-				if len(rest) > 0 && strings.HasPrefix(rest[0], "H") {
+				if len(rest) > 0 && strings.HasPrefix(rest[0], "H") && !strings.Contains(rest[0], ":") {
 					hist, rest = rest[0][1:], rest[1:]
 				}
 				for _, s := range rest {
@@ -1140,13 +1367,47 @@ func init() {
 			case "S":
 				var rs []c10Rule
 				hist, rest := "", f[1:]
-				if len(rest) > 0 && strings.HasPrefix(rest[0], "H") {
+				if len(rest) > 0 && strings.HasPrefix(rest[0], "H") && !strings.Contains(rest[0], ":") {
 					hist, rest = rest[0][1:], rest[1:]
 				}
 				for _, s := range rest {
 					rs = append(rs, c10ParseRule(s))
 				}
-				return c10RunSinks(hist, rs)
+				return c10RunSinks(hist, rs, false)
+			case "W":
+				// sinks whose floored priorities tie: observed run (sink NAMES) validated by the model
+				var rs []c10Rule
+				for _, s := range f[1:] {
+					rs = append(rs, c10ParseRule(s))
+				}
+				obs := c10RunSinks("", rs, true)
+				if strings.HasPrefix(obs, "ERR") {
+					return obs
+				}
+				fl, err := os.OpenFile(fmt.Sprintf("c10-validate-%d.txt", os.Getpid()), os.O_APPEND|os.O_CREATE|os.O_WRONLY, 0644)
+				if err != nil {
+					return "ERR " + oneLine(err.Error())
+				}
+				fmt.Fprintf(fl, "%s ## %s\n", payload, obs)
+				fl.Close()
+				return "validated"
+			case "P":
+				var rs []c10PRule
+				for _, s := range f[3:] {
+					x := strings.Split(s, ":")
+					if len(x) != 6 {
+						return "bad-payload"
+					}
+					r := c10PRule{c10Rule: c10ParseRule(strings.Join(x[:3], ":")), scope: x[3], dbl: x[5] == "1"}
+					if x[4] != "-" {
+						for _, y := range strings.Split(x[4], "+") {
+							j, _ := strconv.Atoi(y)
+							r.supp = append(r.supp, j)
+						}
+					}
+					rs = append(rs, r)
+				}
+				return c10RunPre(f[1] == "1", f[2], rs)
 			case "B":
 				return c10RunBook(f[1:])
 			case "Q":
